@@ -369,7 +369,7 @@ class Interp:
         self.inline, self.max_depth = None, 0
         try:
             assume = self.assume_for(callee, which) if which else None
-            hole = self._default_hole if callee.fn.kind == 'ctxgen' else None
+            hole = self._default_hole_ev if callee.fn.kind == 'ctxgen' else None
             paths = self._paths_of(callee, assume, hole,
                                    ptypes=self.ptypes_for(callee, which),
                                    want_truth=callee.fn.name in ('__aexit__', '__exit__'))
